@@ -10,7 +10,11 @@ package maven
 //@   requires !e1.isNumber ==> isstr(e1.value)
 //@   requires e2.isNumber ==> isnum(e2.value)
 //@   requires !e2.isNumber ==> isstr(e2.value)
-//@   comparator e1 ~ e2                                   [C01]
+//@   comparator e1 ~ e2                                   [C01]   // known finding: number < "sp" < unknown qualifier < number
+//@   comparator e1 ~ e2 where known(e1) && known(e2)      [C01]   // everything outside the finding's region stays live
+
+// Elements that are numbers or qualifiers listed in qualifierOrder (ga/final/release never occur: the parser normalises them to "").
+//@ spec known(e element) bool = e.isNumber || (has(qualifierOrder, strof(e.value)) && strof(e.value) != "ga" && strof(e.value) != "final" && strof(e.value) != "release")
 
 //@ spec wfElems(es []element) bool = forall i int :: 0 <= i && i < len(es) ==> (es[i].isNumber ==> isnum(es[i].value)) && (!es[i].isNumber ==> isstr(es[i].value))
 
